@@ -9,7 +9,9 @@ Three-way comparison per step of a history of attribute operations on a fresh `T
      `is_ready` ⇒ real `verify(path)` is True),
   M  the Lean model `Attrs.apply` (state left behind by raising setters included),
   S  the decidable invariant `Attrs.Inv` evaluated by the driver on the model state,
-under the hypothesis `OpOk` of the theorem `C09_inv_step` (`hyp`), plus a direct comparison of
+under the hypothesis `AllOkC` of the theorem `C09_inv_history_corrected` (`hypC`: every operation
+satisfies `OpOk`, or is a bound assignment directly followed by a corrective assignment of the same
+bound), plus a direct comparison of
 `Torrent.calculate_piece_size` with the integer model.
 """
 import json
@@ -24,7 +26,9 @@ R = W.ROOT
 RULE = ('histories of attribute operations (path/files/filepaths setters and list mutations, '
         'glob filter edits, name, piece_size, piece_size_min/max, generate, comment) on a fresh '
         'Torrent over five content trees with the real default bounds: corpus + enumerated '
-        '(hash-then-every-pair-of-operations) + random (length <= 8 quick, <= 14 thorough); '
+        '(hash-then-every-pair-of-operations, also from a piece length of 32 MiB under an explicit '
+        'maximum followed by a bound reset, and bound-assignment-across-the-other-bound followed by '
+        'a re-assignment of that bound) + random (length <= 8 quick, <= 14 thorough); '
         'non-trivial = piece hashes were present before at least one operation other than '
         'generate/comment; distinct = distinct operation sequence.  calculate_piece_size: '
         'boundary sizes of every power of two and threshold, distinct = (size, min, max)')
@@ -63,19 +67,8 @@ def match_bound_across(case, observed, finding):
             and observed['pre']['pmin'] <= observed['pre']['pmax'])
 
 
-def match_max_reset(case, observed, finding):
-    """D09c: the first deviation is piece length > maximum directly after piece_size_max = None
-    with a piece length above the class default maximum and bounds that do not cross."""
-    pre = observed.get('pre')
-    op = observed['op']
-    return (observed.get('codes') == ['pl>max'] and op['k'] == 'setMax' and op['v'] is None
-            and pre is not None and pre['pl'] is not None and pre['pl'] > W.DEFAULT_MAX
-            and pre['pmin'] <= W.DEFAULT_MAX)
-
-
 MATCHERS = {
     'bound_assigned_across_other_bound': match_bound_across,
-    'max_reset_below_piece_size': match_max_reset,
 }
 
 # ---------------------------------------------------------------------------------------------
@@ -244,8 +237,58 @@ PREFIXES = [
 ]
 
 
-def enumerated(ctx):
+# region of the repaired D09c: a piece length above the class default maximum (32 MiB under an
+# explicit maximum of 32 MiB), hashed; every operation, and every operation after a bound reset
+BIG_PREFIX = [{'k': 'setMax', 'v': 2048 * K}, {'k': 'setPath', 'p': R + ['F5']},
+              {'k': 'setPieceSize', 'v': 2048 * K}, {'k': 'generate'}]
+RESETS = [{'k': 'setMax', 'v': None}, {'k': 'setMin', 'v': None}]
+
+
+def enumerated_big(ctx):
     out = []
+    for a in ALPHABET:
+        out.append(BIG_PREFIX + [a])
+        out.append(BIG_PREFIX[:3] + [a])
+        for b in (ALPHABET if ctx.thorough else RESETS):
+            out.append(BIG_PREFIX + [a, b])
+    for r in RESETS:
+        for b in ALPHABET:
+            out.append(BIG_PREFIX + [r, b])
+            out.append(BIG_PREFIX + [r, {'k': 'generate'}, b])
+    return out
+
+
+def enumerated_corrected(ctx):
+    """D09b narrowed: a bound assignment across the other bound, then an assignment of the same
+    bound (corrective: None / legal and not crossing; or not: still crossing / illegal value), then
+    one more operation - with and without content, piece size and hashes, in both orders"""
+    sp = lambda k, v: {'k': k, 'v': v}   # noqa
+    setups = [[], [{'k': 'setPath', 'p': R + ['F5']}],
+              [{'k': 'setPath', 'p': R + ['F5']}, sp('setPieceSize', 3 * K), {'k': 'generate'}],
+              [{'k': 'setPath', 'p': R + ['A']}, {'k': 'generate'}]]
+    cross = [
+        ([sp('setMax', 2 * K)], sp('setMin', 4 * K),
+         [sp('setMin', None), sp('setMin', K), sp('setMin', 2 * K), sp('setMin', 3 * K), sp('setMin', 1000)]),
+        ([sp('setMin', 4 * K)], sp('setMax', 2 * K),
+         [sp('setMax', None), sp('setMax', 4 * K), sp('setMax', 8 * K), sp('setMax', 3 * K), sp('setMax', 5 * K // 2)]),
+        ([sp('setMax', 2048 * K), sp('setMin', 2048 * K)], sp('setMax', None),
+         [sp('setMax', 2048 * K), sp('setMax', 4096 * K), sp('setMax', None), sp('setMax', 1024 * K)]),
+    ]
+    follow = ALPHABET if ctx.thorough else [{'k': 'generate'}, {'k': 'setPath', 'p': R + ['F5']},
+                                            sp('setPieceSize', None), {'k': 'setComment', 'c': 'x'}]
+    out = []
+    for su in setups:
+        for pre, x, fixes in cross:
+            for f in fixes:
+                for a in follow:
+                    out.append(su + pre + [x, f, a])
+                    if su:
+                        out.append(pre + su + [x, f, a])
+    return out
+
+
+def enumerated(ctx):
+    out = enumerated_big(ctx) + enumerated_corrected(ctx)
     for a in ALPHABET:
         out.append([a])
         for b in ALPHABET:
@@ -340,21 +383,36 @@ def evaluate(ctx, drv, cases):
             if not ms['wf']:
                 ctx.machinery_error('generator produced a globSet outside the modelled domain', case)
                 break
-            if ms['hyp'] and not ms['inv']:
-                ctx.machinery_error('model state violates Inv under OpOk although C09_inv_step is proved',
+            if ms['hypC'] and not ms['inv']:
+                ctx.machinery_error('model state violates Inv under AllOkC although C09_inv_history_corrected is proved',
                                     {'case': case, 'step': k})
                 break
             if st['dev']:
                 pre = impl['steps'][k - 1]['obs'] if k else impl['init']
                 observed = {'step': k, 'op': op, 'codes': st['dev'], 'res': st['res'], 'pre': pre,
-                            'post': st['obs'], 'hyp': ms['hyp']}
+                            'post': st['obs'], 'hyp': ms['hypC']}
                 fid = ctx.violation('after operation %d (%s) the torrent violates C09: %s'
                                     % (k, op['k'], ', '.join(st['dev'])),
                                     case, {'no deviation; model state': ms['state'], 'model res': ms['res']},
                                     observed, finding_matchers=MATCHERS)
                 reproduced = reproduced or (fid is not None and fid == c.get('witness'))
+                # D09b narrowed (C09_inv_corrected_step): if the deviation is the known finding and
+                # the next operation re-assigns the same bound correctively (the driver's hypC holds
+                # again), the history goes on; the state left by the crossing assignment itself must
+                # be the model's (the model mirrors raising setters)
+                if (fid is not None and k + 1 < len(impl['steps']) and msteps[k + 1]['hypC']):
+                    ctx.dist['crossing-then-corrected'] += 1
+                    d = _diff(ms['state'], st['obs'])
+                    if ms['res'] != st['res']:
+                        d['outcome'] = {'model': ms['res'], 'impl': st['res']}
+                    if d:
+                        ctx.corr_break('c09.run', {'ops': ops[:k + 1], 'src': c['src']},
+                                       {'step': k, 'diff': d, 'state': ms['state'], 'res': ms['res']},
+                                       {'step': k, 'state': st['obs'], 'res': st['res']})
+                        break
+                    continue
                 break
-            if not ms['hyp']:
+            if not ms['hypC']:
                 # outside the theorem's hypothesis the implementation met the specification
                 ctx.dist['outside-hyp-but-in-spec'] += 1
                 continue
@@ -367,6 +425,13 @@ def evaluate(ctx, drv, cases):
                 break
             if st['obs']['ready']:
                 ctx.dist['ready-and-verified'] += 1
+            if op['k'] in ('setMin', 'setMax') and op['v'] is None:
+                # region of the repaired D09c: a bound reset with a piece length present (clamp runs)
+                pre = impl['steps'][k - 1]['obs'] if k else impl['init']
+                if pre and pre.get('pl'):
+                    ctx.dist['bound-reset-with-piece-length'] += 1
+                    if op['k'] == 'setMax' and pre['pl'] > W.DEFAULT_MAX:
+                        ctx.dist['max-reset-clamped-piece-length'] += 1
         if c.get('witness') and not reproduced:
             if c['witness'] not in ctx.not_reproduced:
                 ctx.not_reproduced.append(c['witness'])
